@@ -346,6 +346,14 @@ def run(prog, check):
              'the function can return normally although variables were recorded as not converged (lines %s)' % (
                  trace(seen2, bad_exit[0], g) if bad_exit else '?'),
              'an unstable or drifting system')
+    # ---- R2 (cont.): the parameters of the search belong to one solver ----------------------------------------
+    from ._common import per_instance_defaults
+    for attr_, where_, ok_, txt_ in per_instance_defaults(prog, ss_raw.cls, 'ParameterInitialSteadyState'):
+        check.ob('C15.R2', '%s::own-parameter-object(%s)' % (ss_raw.cls.key, attr_), ok_, where_,
+                 'every solver starts with its own value (`%s`)' % txt_ if ok_ else
+                 'self.%s is the module-level object `%s` in every solver: excluding a variable on one solver excludes it in all others, '
+                 'whose search then accepts that variable although it still moves' % (attr_, txt_),
+                 'two solvers; solver_a.%s.append(name); solver_b searches' % attr_)
     # ---- R5: the variables tested are all the variables that have a series (decorative ones included) ------------
     from ._common import steady_state_covers_all_series
     ok_c, why_c = steady_state_covers_all_series(loop, subst)
